@@ -235,6 +235,27 @@ def judgeObj (o : VerOps) (c : List Nat) (impl : String) : Verdict := Id.run do
     | _ => v := { v with diff := some "BAD-IMPL-LINE" }
   return v
 
+/-- `A ver kind a1 a2 a3 | allocs` — the documented allocation budget (README: 0 to 1 allocs/op):
+    a successful ParseVector ≤ 1, Vector() = 1, Get/Set on a known metric, scores, Rating, Nomenclature = 0.
+    Cost model for Vector(): one `make` of `lenVec` bytes; the appends regrow iff the text is longer. -/
+def judgeAlloc (o : VerOps) (kind a1 a2 a3 : String) (impl : String) : Verdict := Id.run do
+  let n := impl.toNat!
+  let mut v : Verdict := {}
+  match kind with
+  | "vector" =>
+    let c := unhex a1
+    let fits := (o.vector c).length ≤ o.lenVec c
+    if fits != (n == 1) && !(n ≥ 2 && !fits) then v := { v with diff := some (if fits then "1" else ">=2") }
+    if o.wf c && n != 1 then v := v.add "C17" s!"Vector() allocates {n}"
+  | "parse" =>
+    if (o.ver.read? (unhex a2)).isSome && n > 1 then v := v.add "C17" s!"successful ParseVector allocates {n}"
+  | "get" =>
+    if Spec.isMetric o.ver.metrics (unhex a2) && n != 0 then v := v.add "C17" s!"Get allocates {n}"
+  | "set" =>
+    if Spec.isMetric o.ver.metrics (unhex a2) && n != 0 then v := v.add "C17" s!"Set allocates {n}"
+  | _ => if n != 0 then v := v.add "C17" s!"{kind} allocates {n}"
+  return v
+
 def judge (line : String) : Verdict × String :=
   match line.splitOn " | " with
   | [op, impl] =>
@@ -255,6 +276,11 @@ def judge (line : String) : Verdict × String :=
     | ["O", ver, c] => match opsOf ver with
       | some o => (judgeObj o (unhex c) impl, "O" ++ ver)
       | none => ({ diff := some "BAD-OP" }, "?")
+    | ["A", ver, kind, a1, a2, a3] => match opsOf ver with
+      | some o => (judgeAlloc o kind a1 a2 a3 impl, "A" ++ ver ++ kind)
+      | none => ({ diff := some "BAD-OP" }, "?")
+    | ["C", ver, scenario, _] =>
+      ((if impl == "same" then ({} : Verdict) else ({} : Verdict).add "C14" impl), "C" ++ ver ++ scenario)
     | _ => match Driver.judgeScoreOp (op.splitOn " ") impl with
       | some (d, viol, detail, tag) => ({ diff := d, viol := viol, detail := detail }, tag)
       | none => ({ diff := some "BAD-OP" }, "?")
